@@ -517,7 +517,7 @@ def finish(prop, tier, seed, t0, results, rule, nontrivial_classes, floor, assum
         viols.setdefault(key, []).append(r)
 
     new, knownhits = [], {}
-    rdir = os.path.join(VERIF, "replays", prop)
+    rdir = os.path.join(os.environ.get("VERIF_REPLAY_DIR") or os.path.join(VERIF, "replays"), prop)      # overridden by bin/seedtest --worktree only
     for key, recs in sorted(viols.items()):
         k = match_known(prop, key, known)
         if k:
@@ -553,8 +553,9 @@ def finish(prop, tier, seed, t0, results, rule, nontrivial_classes, floor, assum
         cov.update(extra)
     ev = dict(property_id=prop, tier=tier, seed=int(seed), level=level, coverage=cov,
               assumptions=list(assumptions), wall_s=round(time.time() - t0, 2), violations=len(new))
-    os.makedirs(os.path.join(VERIF, "evidence"), exist_ok=True)
-    evp = os.path.join(VERIF, "evidence", prop + ".json")
+    evd = os.environ.get("VERIF_EVIDENCE_DIR") or os.path.join(VERIF, "evidence")      # overridden by bin/seedtest --worktree only
+    os.makedirs(evd, exist_ok=True)
+    evp = os.path.join(evd, prop + ".json")
     with open(evp + ".tmp", "w") as fh:
         json.dump(ev, fh, indent=1, sort_keys=True)
     os.rename(evp + ".tmp", evp)
